@@ -74,6 +74,24 @@ def gen_cases(tier, seed):
         cases.append({"lines": lines, "mode": r.choice(MODES), "kind": kind, "pty": False})
         if i % 5 == 0:
             cases.append({"lines": lines, "mode": r.choice(MODES[:8]), "kind": kind, "pty": True})
+    # hunk lines that carry their own balanced sequences (a colourised log file under version control), with and
+    # without a byte that is not valid UTF-8: delta's own section boundaries must not fall inside a sequence
+    for i in range(n // 3):
+        r = vlib.case_rng(seed, PID, ("coloured-hunk", i))
+        bad = "\udce9" if i % 2 == 0 else "é"
+        body = []
+        for _ in range(r.randint(1, 3)):
+            ts = "2024-01-%02d " % r.randint(1, 28)
+            msg = gdiff.gline(r).replace("\t", " ")
+            old = ts + r.choice(["\x1b[31mERROR\x1b[0m", "\x1b[1;31mFATAL\x1b[m", "\x1b[33mWARN\x1b[0m"]) + " caf" + bad + " " + msg
+            new = ts + r.choice(["\x1b[32mINFO\x1b[0m", "\x1b[1;32mOK\x1b[m", "\x1b[36mDEBUG\x1b[0m"]) + " caf" + bad + " " + msg + r.choice(["", " x" * 30])
+            if r.random() < 0.3:
+                body.append(" " + old)
+            else:
+                body += ["-" + old, "+" + new]
+        lines = ["diff --git a/app.log b/app.log", "index 1111111..2222222 100644", "--- a/app.log", "+++ b/app.log",
+                 "@@ -1,%d +1,%d @@" % (sum(1 for b in body if b[0] in " -"), sum(1 for b in body if b[0] in " +"))] + body
+        cases.append({"lines": lines, "mode": r.choice(MODES), "kind": "coloured-hunk-lines" + ("-invalid-utf8" if i % 2 == 0 else ""), "pty": False})
     for m in MODES:   # every mode at least once
         r = vlib.case_rng(seed, PID, "m" + " ".join(m))
         cases.append({"lines": gdiff.diff_lines(gdiff.gen_diff(r, nsec=2, log=True)), "mode": m, "kind": "plain", "pty": False})
@@ -150,7 +168,7 @@ def main(tier, replay=None):
                 "max-line-length) x 22 mode sets, on a pipe and on a pty; non-trivial = at least one styled row")
 
     def work(c):
-        inp = ("\n".join(c["lines"]) + "\n").encode()
+        inp = ("\n".join(c["lines"]) + "\n").encode("utf-8", "surrogateescape")
         args = ["--no-gitconfig", "--paging", "never"] + c["mode"]
         if c["pty"]:
             return run_on_pty(args, inp) + (b"",)
@@ -159,6 +177,7 @@ def main(tier, replay=None):
     with ThreadPoolExecutor(max_workers=vlib.NCPU) as ex:
         results = list(ex.map(work, cases))
     for c, (rc, out, err) in zip(cases, results):
+        chk.count("kind:" + c["kind"])
         chk.count("mode:" + " ".join(c["mode"]) + (" [pty]" if c["pty"] else ""))
         chk.case((tuple(c["lines"]), tuple(c["mode"]), c["pty"]), b"\x1b[" in out, {"mode": c["mode"], "pty": c["pty"], "kind": c["kind"], "n_lines": len(c["lines"])})
         if rc != 0:
